@@ -628,7 +628,8 @@ func checkSearchFlags(c *Ctx, rule string, fns ...string) {
 				"the flag that the loop at "+p.Pos(f.Inner.Pos())+" sets is declared outside the enclosing loop at "+p.Pos(f.Outer.Pos())+" and not reset there: once it is true it stays true, and every later element is treated as if its own search had succeeded")
 		}
 	}
-	c.Check(n >= 1, rule, "search flags enumerated", token.NoPos, itoa(n), "no search flag found in "+strings.Join(fns, ", "))
+	// no floor: code that searches without a flag (slices.ContainsFunc, an index) has nothing to reset
+	c.Ok(rule, "search flags enumerated", token.NoPos, itoa(n)+" in "+strings.Join(fns, ", "))
 }
 
 func dumpSearchFlags(c *Ctx) {
